@@ -1,3 +1,157 @@
+import QmiModel.Model.Context
 import Drv.Common
-/-! stub driver for C12: replaced when the model is built -/
-def main : IO Unit := Drv.main' (fun (s : Unit) _ => (s, "bad-op")) ()
+/-! Line-protocol driver for the context-lifecycle model (property C12).
+
+One output line per input line: `<outcome> | <abstract state>`.
+
+```
+new <cfgTcp>                                   fresh QMI_Context (layer A)
+make <rpc|instr|task> <name> <valid> <ctorF> <relF> <loop|raise|finish>
+remove <n> | removeForeign | get <n> | call <n> | iopen <n> | iclose <n> | tstart <n> | tjoin <n>
+addh <ok|exc|base> | start <tcpF> <udpF> | stop | probe
+qnew | qstart <validName> <cfgTcp> <tcpF> <udpF> <peers: string of 0/1 or -> | qstop | qcontext | q <layer-A op> | qprobe <cfgTcp>
+conc <rpc|instr|task> <name> <ctorF> <relF> <runB>     all outcomes of stop ‖ make from the current layer-A state
+```
+-/
+open QmiModel.Context
+
+namespace C12Drv
+
+def kindS : Kind → String | .rpc => "rpc" | .instr => "instr" | .task => "task"
+def tsS : TaskSt → String | .ready => "ready" | .running => "running" | .ended => "ended" | .joined => "joined"
+
+def excS : Exc → String
+  | .usage => "QMI_UsageException" | .duplicate => "QMI_DuplicateNameException"
+  | .unknownName => "QMI_UnknownNameException" | .invalidOp => "QMI_InvalidOperationException"
+  | .delivery => "QMI_MessageDeliveryException" | .value => "ValueError" | .taskInit => "QMI_TaskInitException"
+  | .taskRun => "QMI_TaskRunException" | .unknownRpc => "QMI_UnknownRpcException" | .os => "OSError"
+  | .connRefused => "ConnectionRefusedError" | .assertion => "AssertionError"
+  | .noActive => "QMI_NoActiveContextException" | .boom => "Boom" | .base => "BaseBoom"
+
+def outS : Out → String | .ok => "ok" | .exc e => "exc:" ++ excS e | .hang => "hang"
+
+def b01 (b : Bool) : String := if b then "1" else "0"
+def join (l : List String) : String := if l.isEmpty then "-" else ",".intercalate l
+
+def objS (o : Obj) : String :=
+  match o.kind with
+  | .rpc => s!"{o.id}:rpc"
+  | .instr => s!"{o.id}:instr:{if o.isOpen then "open" else "closed"}"
+  | .task => s!"{o.id}:task:{tsS o.ts}"
+
+def connS : Conn → String | .tcp => "tcp" | .udp => "udp" | .peer i => s!"p{i}"
+
+def evS : Ev → String
+  | .reg n i => s!"reg:{n}:{i}" | .unreg n i => s!"unreg:{n}:{i}" | .rel i => s!"rel:{i}" | .join i => s!"join:{i}"
+  | .handler i => s!"h:{i}"
+
+def resS (r : Residue) : String :=
+  let mp := join (r.objMap.map (fun e => s!"{e.1}:" ++ (match e.2 with | some i => toString i | none => "-")))
+  let h := join (r.handlers.map (fun e => s!"{e.1}:{e.2}"))
+  let m := join (r.mgrs.map objS)
+  let cn := join (r.conns.map connS)
+  s!"r={b01 r.routerUp} map={mp} h={h} m={m} conn={cn}"
+
+def obs (c : Ctx) : String :=
+  let (tr, tp, tt) := c.threads
+  s!"a={b01 c.active} u={b01 c.used} t={b01 c.tcpSet} {resS c.residue} thr={tr},{tp},{tt} " ++
+  s!"rel={join (c.released.map toString)} hc={join (c.hcalls.map toString)} ev={join (c.log.map evS)}"
+
+def pobs (p : Proc) : String :=
+  match p.single with
+  | none => "single=none"
+  | some c => "single=set " ++ obs c
+
+structure W where
+  c : Ctx := Ctx.init false
+  p : Proc := Proc.init
+
+def pBool (s : String) : Option Bool := if s == "1" then some true else if s == "0" then some false else none
+def pKind (s : String) : Option Kind :=
+  if s == "rpc" then some .rpc else if s == "instr" then some .instr else if s == "task" then some .task else none
+def pRun (s : String) : Option RunB :=
+  if s == "loop" then some .loop else if s == "raise" then some .raise else if s == "finish" then some .finish else none
+def pHF (s : String) : Option HF :=
+  if s == "ok" then some .ok else if s == "exc" then some .exc else if s == "base" then some .base else none
+def pPeers (s : String) : Option (List Bool) :=
+  if s == "-" then some [] else s.toList.mapM (fun ch => if ch == '1' then some true else if ch == '0' then some false else none)
+
+def parseOp (ws : List String) : Option Op :=
+  match ws with
+  | ["make", k, n, v, cf, rf, rb] => do
+    some (.make (← pKind k) (← n.toNat?) (← pBool v) (← pBool cf) (← pBool rf) (← pRun rb))
+  | ["remove", n] => do some (.remove (← n.toNat?))
+  | ["removeForeign"] => some .removeForeign
+  | ["get", n] => do some (.get (← n.toNat?))
+  | ["call", n] => do some (.call (← n.toNat?))
+  | ["iopen", n] => do some (.iopen (← n.toNat?))
+  | ["iclose", n] => do some (.iclose (← n.toNat?))
+  | ["tstart", n] => do some (.tstart (← n.toNat?))
+  | ["tjoin", n] => do some (.tjoin (← n.toNat?))
+  | ["addh", f] => do some (.addH (← pHF f))
+  | ["start", t, u] => do some (.start (← pBool t) (← pBool u))
+  | ["stop"] => some .stop
+  | _ => none
+
+def outcomeS (o : COutcome) : String :=
+  let f : Option Out → String := fun x => match x with | some r => outS r | none => "unfinished"
+  s!"mk={f o.make} st={f o.stop} a={b01 o.active} {resS o.res} rel={join (o.released.map toString)}"
+
+def insertSorted (s : String) : List String → List String
+  | [] => [s]
+  | x :: xs => if s == x then x :: xs else if s < x then s :: x :: xs else x :: insertSorted s xs
+
+/-- all outcomes of `stop ‖ make`: depth-first over every interleaving of the two step functions -/
+def explore (a : MakeArgs) : Nat → CState → List String → List String
+  | 0, st, acc => insertSorted (outcomeS st.outcome) acc
+  | fuel + 1, st, acc =>
+    if st.m.isDone && st.s.isDone then insertSorted (outcomeS st.outcome) acc
+    else
+      let acc := if st.m.isDone then acc else explore a fuel (cstep a st true) acc
+      if st.s.isDone then acc else explore a fuel (cstep a st false) acc
+
+def concOutcomes (c : Ctx) (a : MakeArgs) : List String :=
+  explore a (5 + 2 + 2 * (c.objMap.length + 1)) (cinit c) []
+
+def stepLine (w : W) (line : String) : W × String :=
+  let ws := line.splitOn " "
+  match ws with
+  | ["new", t] =>
+    match pBool t with
+    | some t => let c := Ctx.init t; ({ w with c }, "ok | " ++ obs c)
+    | none => (w, "bad-op")
+  | ["probe"] => (w, outS (freshStart w.c))
+  | ["qnew"] => ({ w with p := Proc.init }, "ok | " ++ pobs Proc.init)
+  | ["qstart", v, t, tf, uf, peers] =>
+    match pBool v, pBool t, pBool tf, pBool uf, pPeers peers with
+    | some v, some t, some tf, some uf, some peers =>
+      let (p, o) := qstart w.p.clr v t tf uf peers
+      ({ w with p }, outS o ++ " | " ++ pobs p)
+    | _, _, _, _, _ => (w, "bad-op")
+  | ["qstop"] => let (p, o) := qstop w.p.clr; ({ w with p }, outS o ++ " | " ++ pobs p)
+  | ["qcontext"] => let (p, o) := pstep w.p .qcontext; ({ w with p }, outS o ++ " | " ++ pobs p)
+  | ["qprobe", t] =>
+    match pBool t with
+    | some t =>
+      let (p1, o) := qstart w.p.clr true t false false []
+      match o with
+      | .ok => let (p2, o2) := qstop p1; ({ w with p := p2 }, outS o2 ++ " | " ++ pobs p2)
+      | _ => ({ w with p := p1 }, outS o ++ " | " ++ pobs p1)
+    | none => (w, "bad-op")
+  | "q" :: rest =>
+    match parseOp rest with
+    | some op => let (p, o) := pstep w.p (.op op); ({ w with p }, outS o ++ " | " ++ pobs p)
+    | none => (w, "bad-op")
+  | ["conc", k, n, cf, rf, rb] =>
+    match pKind k, n.toNat?, pBool cf, pBool rf, pRun rb with
+    | some k, some n, some cf, some rf, some rb =>
+      (w, " ; ".intercalate (concOutcomes w.c { k, n, ctorF := cf, relF := rf, runB := rb }))
+    | _, _, _, _, _ => (w, "bad-op")
+  | _ =>
+    match parseOp ws with
+    | some op => let (c, o) := step w.c op; ({ w with c }, outS o ++ " | " ++ obs c)
+    | none => (w, "bad-op")
+
+end C12Drv
+
+def main : IO Unit := Drv.main' C12Drv.stepLine {}
